@@ -356,7 +356,11 @@ Theorem C06_gen_defaults :
   Gen.Consts.default_plan_cache_max_query_bytes = Tables.CacheDefaults.model_default_max_query_bytes /\
   Gen.Consts.linked_plan_cache_max_entries = Gen.Consts.default_plan_cache_max_entries /\
   Gen.Consts.linked_plan_cache_max_query_bytes = Gen.Consts.default_plan_cache_max_query_bytes.
-Proof. repeat split; vm_compute; reflexivity. Qed.
+Proof.
+  repeat split;
+  first [ vm_compute; reflexivity
+        | fail 1 "generated-table obligation C06_gen_defaults no longer holds against the regenerated table: defaultPlanCacheMaxEntries / defaultPlanCacheMaxQueryBytes of plan_cache.go (Gen/Consts.v) are not the defaults of the cache model (Tables/CacheDefaults.v)" ].
+Qed.
 Print Assumptions C06_gen_defaults.
 
 (* C06_bound for a cache built without MaxEntries: the bound is the constant of the source, and
@@ -369,7 +373,8 @@ Theorem C06_gen_default_bound :
       0 < Gen.Consts.default_plan_cache_max_entries.
 Proof.
   intros R A hash fresh ok synth no_synth victim HV c h Hm Hd.
-  split; [|vm_compute; reflexivity].
+  split; [|first [ vm_compute; reflexivity
+                 | fail 1 "generated-table obligation C06_gen_default_bound no longer holds against the regenerated table: defaultPlanCacheMaxEntries of plan_cache.go (Gen/Consts.v) is not positive" ]].
   pose proof (C06_bound R A hash fresh ok synth no_synth victim HV c h) as B.
   unfold eff_max in B. apply Z.leb_le in Hm. rewrite Hm, Hd in B. exact B.
 Qed.
